@@ -27,7 +27,8 @@ VARIABLES l,        \* index of the next event
           eof,      \* the EOF token has been seen
           depth,    \* open block comments
           drift,    \* deviations: columns added on the current line by DevMultiByteEnd / DevZeroLen, <<mb, zl>>
-          dpts,     \* deviations: offsets from which on (same line) a drift applies, with its kind
+          dpts,     \* deviations: <<offset, kind>> -- from that offset on (same line) one more column of drift applies;
+                    \* kind "mb" (DevMultiByteEnd, read off a token whose own end column is one too large) or "zl" (DevZeroLen)
           skip
 tvars == <<inp, pos, line, col, hist, l, big, n, err, eof, depth, drift, dpts, skip>>
 
@@ -85,7 +86,7 @@ AdvanceTok(e) ==
       base == IF nl THEN <<0, 0>> ELSE drift
   IN /\ pos' = e.e + 1 /\ line' = r[2] /\ col' = r[3]
      /\ drift' = IF mb THEN <<base[1] + 1, base[2]>> ELSE IF zl THEN <<base[1], base[2] + 1>> ELSE base
-     /\ dpts' = IF mb \/ zl THEN dpts \cup {e.e + 1} ELSE dpts
+     /\ dpts' = IF mb THEN dpts \cup {<<e.e + 1, "mb">>} ELSE IF zl THEN dpts \cup {<<e.e + 1, "zl">>} ELSE dpts
      /\ depth' = IF e.t = "/*" THEN depth + 1 ELSE IF e.t = "*/" /\ depth > 0 THEN depth - 1 ELSE depth
      /\ err' = (e.t = "error")
 
@@ -101,7 +102,10 @@ EofPastEnd(e) == ~eof /\ ~err /\ n > 0 /\ pos = n - 1 /\ Byte(inp, n - 1) = 92 /
 PosPastEnd(p) == ~big /\ n > 0 /\ Byte(inp, n - 1) = 92 /\ p[1] = n + 1
 
 \* ---- diagnostics: positions inside the input, line/column the function of the offset
-DriftAt(o) == LET ls == LineStart(inp, o) IN Cardinality({p \in dpts : ls <= p /\ p <= o})
+\* The expected column of a reported position is exact + (number of drift points before it ON ITS OWN LINE); the
+\* deviation is named after the kinds of exactly those drift points (not after the lexer's state at the end of input)
+KindAt(o, k) == LET ls == LineStart(inp, o) IN Cardinality({p \in dpts : ls <= p[1] /\ p[1] <= o /\ p[2] = k})
+DriftAt(o) == KindAt(o, "mb") + KindAt(o, "zl")
 PosExact(p) == p[1] >= 0 /\ p[1] <= n /\ (~big => LineColAt(inp, p[1]) = <<p[2], p[3]>>)
 PosDrift(p) == /\ p[1] >= 0 /\ p[1] <= n /\ ~big
                /\ LET lc == LineColAt(inp, p[1]) IN p[2] = lc[1] /\ p[3] = lc[2] + DriftAt(p[1])
@@ -109,6 +113,9 @@ PosDrift(p) == /\ p[1] >= 0 /\ p[1] <= n /\ ~big
 PosErrTok(p) == ~big /\ \E q \in 0..(n - 1) : RuneLen(inp, q) > 1 /\ p[1] = q + RuneLen(inp, q) - 1
                           /\ LET lc == LineColAt(inp, q) IN p[2] = lc[1] /\ p[3] = lc[2] + DriftAt(q) + 1
 DiagIdx(e) == 1..Len(e.pos)
+DiagDrifted(e) == {i \in DiagIdx(e) : ~PosExact(e.pos[i]) /\ PosDrift(e.pos[i])}
+DiagDriftName(e) == NameOf(IF \E i \in DiagDrifted(e) : KindAt(e.pos[i][1], "mb") > 0 THEN 1 ELSE 0,
+                           IF \E i \in DiagDrifted(e) : KindAt(e.pos[i][1], "zl") > 0 THEN 1 ELSE 0)
 
 Same == UNCHANGED <<inp, pos, line, col, hist, big, n, err, eof, depth, drift, dpts>>
 Reject == PrintT(<<"REJECT", l>>) /\ Same /\ skip' = TRUE
@@ -135,7 +142,7 @@ Step(e) ==
          IF \A i \in DiagIdx(e) : PosExact(e.pos[i]) THEN Same /\ UNCHANGED skip
          ELSE IF \A i \in DiagIdx(e) : PosExact(e.pos[i]) \/ PosDrift(e.pos[i]) \/ PosErrTok(e.pos[i]) \/ PosPastEnd(e.pos[i])
               THEN Dev(IF \E i \in DiagIdx(e) : ~PosExact(e.pos[i]) /\ PosPastEnd(e.pos[i]) THEN "DevBackslashEndOfInterpolation" ELSE IF \E i \in DiagIdx(e) : ~PosExact(e.pos[i]) /\ ~PosDrift(e.pos[i]) THEN "DevErrMultiByte"
-                       ELSE IF dpts = {} THEN "DevMultiByteEnd" ELSE DriftName) /\ Same /\ UNCHANGED skip
+                       ELSE DiagDriftName(e)) /\ Same /\ UNCHANGED skip
          ELSE Reject
     [] OTHER -> Reject
 
